@@ -3,3 +3,7 @@ import KojenVerif.Props.C05
 #print axioms KojenVerif.C05.C05_raised_error
 #print axioms KojenVerif.C05.C05_nothing_touched_before_first_rename
 #print axioms KojenVerif.script_prefix_safe
+#print axioms KojenVerif.C05.C05_whole_run_atomic
+#print axioms KojenVerif.C05.C05_whole_run_raised_error
+#print axioms KojenVerif.C05.C05_whole_run_contents
+#print axioms KojenVerif.C05.C05_run_without_copies
